@@ -159,6 +159,74 @@ PROPS = {
   'trusted_base': ['hand model coq/Model/Transform.v tied by differential execution', 'reference conversion harness/src/c08.rs written from the documentation'],
   'assumptions': ['the colour key of grey/RGB images below 16 bits is the low byte of each 16-bit tRNS sample (as the decoder stores it)'],
  },
+ 'C02': {
+  'level_text': 'PARTIAL. Coq theorems (closed under the global context): the panic sites of the MODELLED code are unreachable - Reader cursor (frame counter subtraction, both assertions, frame_control.unwrap) from every state and '
+                'visible prefix; create_rgba_palette for every PLTE/tRNS payload; expand_pass for every legal argument; StreamingDecoder::update never exhausts its loop budget and every error/panic outcome poisons. Panics of '
+                'un-modelled code (std, fdeflate, buffer index arithmetic, row transforms, text) and aborts cannot be exhibited by a Gallina model: they are searched on every run with catch_unwind in a build with overflow '
+                'checks and debug assertions, plus the orchestrator watchdog for aborts/hangs.',
+  'level_note': '''Trusted: Coq kernel; hand model of the Reader cursor (coq/Model/Reader.v) tied by differential execution of op sequences (C13 harness emits the abstract trace of every sequence and the extracted model must reproduce it); models of palette.rs / adam7.rs / stream.rs tied by their own correspondences. The search half is exploration, not proof.''',
+  'gen_items': [],
+  'model_name': 'Model/Reader.v step; Model/Transform.v create_rgba_palette; Model/Adam7.v expand_pass_model; Model/Stream.v update',
+  'rule': 'cases = valid generated PNG/APNG files, 1-2 structural/byte mutations of them, malformed palettes (0..1000 bytes), headers with extreme dimensions, acTL declaring 0/fewer/more frames, repository corpus and the upstream '
+          'fuzz corpus with and without repaired CRCs; each under random transformation flags x 5 limits x random option bits x random op sequences (1-13 ops over next_frame / next_row / next_interlaced_row / read_row / '
+          'next_frame_info / finish / getters) x inputs that temporarily end and grow between calls x piece schedules; all sequences of length 4 (5) on small files. distinct = (kind, file length).',
+  'trusted_base': ['hand models tied by differential execution', 'catch_unwind search harness/src/c02.rs (exploration)'],
+  'assumptions': ['buffers of the documented size are passed', 'release build with overflow-checks and debug-assertions enabled'],
+  'timeout_quick': 900,
+ },
+ 'C05': {
+  'level_text': 'Coq theorems (closed under the global context) on the Reader cursor model with the visible input prefix a parameter of every call: a row call that runs out of input changes nothing; finish() is resumable; a '
+                'whole-frame call that runs out of input has written a prefix of the rows and, repeated on any longer input, gives exactly the outcome of one call on that input (rows d1 ++ d2). Byte-level accumulation '
+                'of partial fields/bodies is C04. Not proved: composition to bytes, next_frame_info, absence of format errors on prefixes (inflater contract) - decided by the harness on every run.',
+  'level_note': '''Trusted: Coq kernel; hand model of the Reader cursor (coq/Model/Reader.v) tied by differential execution of op sequences (C13 harness emits the abstract trace of every sequence and the extracted model must reproduce it); fdeflate prefix-stability by contract.''',
+  'gen_items': [],
+  'model_name': 'Model/Reader.v step with visibility',
+  'rule': 'cases = generated valid PNG/APNG files (incl. Up/Avg/Paeth rows, multi-IDAT, a 40 KB text chunk after the image data) x truncation points (all for files < 260 B, every 3rd otherwise; all thorough) x growth '
+          'schedules {+1, random, all-at-once} x the retried call in {next_frame (same buffer), next_row, read_row, next_interlaced_row, next_frame_info, finish} (+ read_header_info) x two piece schedules: the final outcome '
+          'must equal the one-shot outcome; plus every prefix alone: no format error, no frame that differs from the complete file\'s. distinct = (path, cut mod 97, length mod 13).',
+  'trusted_base': ['hand model coq/Model/Reader.v tied by differential execution', 'growing-prefix BufRead harness/src/readerrun.rs'],
+  'assumptions': ['read_info consumes the decoder and is outside the quantifier (as in the property)', 'next_frame is retried with the same buffer'],
+  'timeout_quick': 900,
+ },
+ 'C09': {
+  'level_text': 'Coq theorems (closed under the global context) on the Reader cursor model for every valid image: successive whole-frame requests return frames 0..n-1 in order, each with all its rows, then end-of-image '
+                '(stable). Frame-control decoding is C16_fcTL, sequence numbers C10, inflater reset C11, layout at any stride and independence of previous buffer contents C15_expand_image, pixels C01. Tied and searched by '
+                'generated APNGs compared with the specification under three buffer pre-fills and by every rectangle in a small canvas.',
+  'level_note': '''Trusted: Coq kernel; hand model of the Reader cursor (coq/Model/Reader.v) tied by differential execution of op sequences (C13 harness emits the abstract trace of every sequence and the extracted model must reproduce it); reference APNG writer harness/src/gen.rs.''',
+  'gen_items': [],
+  'model_name': 'Model/Reader.v frames_run',
+  'rule': 'cases = generated valid APNGs: all colour/depth pairs, both interlace methods, 1-4 frames, sub-frames of random size/offset, 1-3 fdAT chunks per frame (some empty), default image inside or outside the animation, '
+          'ancillary chunks between frames; plus every (w,h,x,y) inside a 4x3 (6x5) canvas, interlaced and not. Each decoded with next_frame into buffers pre-filled with 0x00 / 0xFF / random: frame count, OutputInfo geometry, '
+          'frame-control values, pixels (padding bits masked) vs the specification, independence of the pre-fill, end-of-image after the last frame. distinct = (colour, depth, interlace, frame count, size class).',
+  'trusted_base': ['hand model coq/Model/Reader.v tied by differential execution', 'reference APNG writer'],
+  'assumptions': ['padding bits after the last pixel of a sub-byte row are not pixels and are not compared'],
+ },
+ 'C13': {
+  'level_text': 'Coq theorems (closed under the global context) on the Reader cursor model: a row call delivers exactly the row under the cursor; a whole-frame call writes exactly the consecutive rows from the cursor (row 0 for a '
+                'fresh frame) and on success all rows to the end; the cursor invariant is preserved by every call - so every mix of calls delivers each row of a frame once, in order. Row contents: C01/C15. The model is tied to '
+                'the code by replaying EVERY op sequence to length 4 (5) and random longer ones on generated files through the extracted model, and all delivered frames are compared with the whole-frame decode.',
+  'level_note': '''Trusted: Coq kernel; hand model of the Reader cursor (coq/Model/Reader.v) tied by differential execution of op sequences (C13 harness emits the abstract trace of every sequence and the extracted model must reproduce it); next_row / next_interlaced_row / read_row are one model operation (they share read_row); the scratch buffer handling is checked on the implementation only.''',
+  'gen_items': [],
+  'model_name': 'Model/Reader.v step',
+  'rule': 'cases = 12 (40) generated files covering interlace x animation x default image in/out x sub-frames; all op sequences over {next_frame, next_row, next_interlaced_row, read_row, next_frame_info, finish, getters} '
+          'to length 4 (5) + 120 (600) random sequences of 5-40 ops per file + sequences under EXPAND/STRIP/ALPHA; rows re-assembled (interlaced: public expand_interlaced_row) and every completed frame compared with the '
+          'single whole-frame decode; abstract traces compared with the Coq model. distinct = (file class, frames delivered).',
+  'trusted_base': ['hand model coq/Model/Reader.v tied by differential execution', 'op-sequence runner harness/src/ops.rs'],
+  'assumptions': ['padding bits of sub-byte rows are not compared'],
+ },
+ 'C18': {
+  'level_text': 'Coq theorems (closed under the global context): Reader cursor model - after a successful finish() every call is refused, writes nothing, stays there; after the last frame frame calls report end-of-image and row '
+                'calls no-more-rows; no panic site reachable from any state. Stream machine - the poisoned state is absorbing and answers at once; reset() yields the state of a new decoder (exactly the initial state when the '
+                'Adler flag and buffer capacity are the initial ones). Not proved: Reader-level non-poisoning errors never followed by a success for the same frame (decided by the harness).',
+  'level_note': '''Trusted: Coq kernel; hand model of the Reader cursor (coq/Model/Reader.v) tied by differential execution of op sequences (C13 harness emits the abstract trace of every sequence and the extracted model must reproduce it); hand model of stream.rs reset tied by the l0reset correspondence cases.''',
+  'gen_items': ['CHUNK_BUFFER_SIZE'],
+  'model_name': 'Model/Reader.v step; Model/Stream.v update, reset_model',
+  'rule': 'cases = valid files and files failing at every stage (mutations, undefined filter bytes in plain and interlaced images): 6 draining heads x all tails of length 3 (4) + random 8-40 op sequences; rules: nothing succeeds '
+          'after PolledAfterFatalError, nothing after finish() Ok, no frame data after all frames were delivered, no success for a frame that already failed; all ordered pairs from ~20 streams (complete, cut mid-IDAT, cut in the '
+          'header, mutated) decoded before/after StreamingDecoder::reset vs a new decoder, two option sets; reset pairs also through the Coq model. distinct = (file class, frames delivered, last result class).',
+  'trusted_base': ['hand models tied by differential execution'],
+  'assumptions': ['finish() may succeed once after the last frame (documented way to read trailing metadata)'],
+ },
 }
 
 NOT_APPLICABLE = {}
